@@ -6,6 +6,12 @@ props=[json.loads(l) for l in open('/verif/properties.jsonl')]
 ids=[p['id'] for p in props]
 TB="trusted base: the gosym executor written for this task (validated by `gosym selftest` and by native replay of every counterexample), golang.org/x/tools/go/ssa v0.29.0, z3 4.8.12 / z3 5.1.0 / cvc5 1.0; environment stubs of DESIGN.md §3.6; bounds as listed in the evidence file"
 checks={
+ "C07": dict(level="model_checking", ref="§5 C07",
+   text="CharRecipe.n, n, unionAll, entropyWithRequired, Entropy and golang-set (incl. PowerSet) run from their SSA on custom sets whose characters are symbolic bytes: set construction forks on every character equality, so every overlap pattern of allowed and required sets is a path whose feasibility the solver decided. On each path the library's exact big-integer count is compared with an independent subset-automaton DP (cross-checked by a second closed form), and Entropy() with log2 of that count by a different route, for small lengths and for lengths 1000/5000; NaN, -Inf and repeatability are asserted.",
+   technique="bounded symbolic execution of go/ssa + SMT (QF_BV) over symbolic set members; big-integer/float arithmetic concrete per path"),
+ "C13": dict(level="model_checking", ref="§5 C13",
+   text="Generate's guards are executed with a symbolic Length over the whole non-positive 64-bit range and on zero-valued / list-less recipes (a nil dereference is a solver-checked panic condition); SuccessProbability and the pre-flight decision are compared with the exact fraction on every overlap pattern of the C07 family (symbolic characters), and the retry loop runs with symbolic draws so that the stream on which every attempt fails is a solver-constructed path: never more than MaxTrials attempts, an error and no password when they are exhausted.",
+   technique="bounded symbolic execution of go/ssa + SMT (QF_BV), native replay"),
  "C04": dict(level="model_checking", ref="§5 C04",
    text="WLRecipe.Generate (with NewWordList, the separator closures, sfWrap and the nested CharRecipe.Generate) is executed from its SSA over a family of word lists, lengths, schemes and separators with every random draw an SMT variable, and compared with the specified draw structure: one draw over the Length positions for 'one', one fair coin per position for 'random', one draw over the whole normalised list per word, one fresh separator per gap whose characters are draws over the separator alphabet, no draw reused, and the trailing draws of the entropy query not influencing the tokens. With C01 this is uniform and independent choice. Lengths 64..66 are included because position sets kept in machine words break exactly there.",
    technique="bounded symbolic execution of go/ssa + SMT (QF_BV) against the specified draw structure, native replay"),
